@@ -33,6 +33,8 @@ type Params struct {
 	R  int64 `json:"R"`
 	P  int64 `json:"P"`
 	T0 int64 `json:"t0"`
+	// Frac: the virtual clock reads model time + 150 ms (never a whole second); Envelope.tla's constant of the same name
+	Frac bool `json:"frac"`
 }
 
 type Rec struct {
@@ -522,6 +524,10 @@ func Run(c *Case, opt Options) (events []fakes.Event, drift []string, fatal stri
 	now := c.Params.T0
 	vrt.SetModelTime(now)
 	defer vrt.RealTime()
+	if c.Params.Frac {
+		vrt.SetFraction(150 * time.Millisecond)
+		defer vrt.SetFraction(0)
+	}
 	names := make([]string, 0, len(c.Cfg))
 	for n := range c.Cfg {
 		names = append(names, n)
@@ -542,7 +548,7 @@ func Run(c *Case, opt Options) (events []fakes.Event, drift []string, fatal stri
 	}
 	fits := opt.Variant == "" || opt.Variant == "simple" || opt.Capacity == 0 || opt.Capacity >= 50
 	r.w.Emit(fakes.Event{"e": "reset", "E": c.Params.E, "R": c.Params.R, "P": c.Params.P, "now": now, "cfg": cfgEv,
-		"variant": opt.Variant, "capacity": opt.Capacity, "fits": fits, "sharedNoCache": opt.SharedNoCache})
+		"variant": opt.Variant, "capacity": opt.Capacity, "fits": fits, "sharedNoCache": opt.SharedNoCache, "frac": c.Params.Frac})
 	defer func() {
 		if x := recover(); x != nil {
 			fatal = fmt.Sprintf("driver panic: %v\n%s", x, debug.Stack())
